@@ -271,12 +271,10 @@ package expand
 //@ requires [count] n == -1 || n >= 1
 //@ loop 1 invariant [separate-buffers] !sameobj(fpos, runes) && fresh(runes)
 //@ loop 1 invariant [open-field] implies(infield, len(fpos) > 0)
-//@ loop 1 invariant [fields-in-line] all(k, 0, len(fpos), 0 <= fpos[k].start && fpos[k].start <= len(runes) && fpos[k].end <= len(runes))
-//@ loop 1 invariant [closed-fields] all(k, 0, len(fpos), fpos[k].end == -1 || fpos[k].start <= fpos[k].end)
-//@ loop 1 invariant [only-last-open] all(k, 0, len(fpos), k == len(fpos)-1 || fpos[k].end != -1)
+//@ loop 1 invariant [field-ranges] all(k, 0, len(fpos), 0 <= fpos[k].start && fpos[k].start <= len(runes) && fpos[k].end <= len(runes) && (fpos[k].end == -1 || fpos[k].start <= fpos[k].end))
 //@ loop 1 invariant [starts-ordered] all(k, 0, len(fpos), fpos[k].start <= fpos[len(fpos)-1].start)
 //@ loop 1 invariant [last-open-iff-infield] implies(len(fpos) > 0, iff(infield, fpos[len(fpos)-1].end == -1))
-//@ loop 1 invariant [disjoint] all(k, 1, len(fpos), fpos[k-1].end <= fpos[k].start && fpos[k-1].end != -1)
+//@ loop 1 invariant [disjoint-only-last-open] all(k, 1, len(fpos), fpos[k-1].end <= fpos[k].start && fpos[k-1].end != -1)
 //@ loop 2 invariant [trim-left-keeps-field] 0 <= lo && lo <= fpos[0].start
 //@ loop 3 invariant [trim-right-keeps-field] fpos[len(fpos)-1].end <= hi && hi <= len(runes) && 0 <= lo && lo <= fpos[0].start
 //@ loop 4 invariant [all-closed] all(k, 0, len(fpos), 0 <= fpos[k].start && fpos[k].start <= fpos[k].end && fpos[k].end <= len(runes))
